@@ -172,7 +172,10 @@ class CSSPageRule(cssrule.CSSRuleRules):
                             token,
                         )
                     else:
-                        if ival not in ('first', 'left', 'right'):
+                        # pseudo-page names are case-insensitive and may contain escapes
+                        if self._normalize(ival) in ('first', 'left', 'right'):
+                            ival = self._normalize(ival)
+                        else:
                             self._log.warn(
                                 'CSSPageRule: Unknown @page '
                                 'selector: %r' % (':' + ival,),
